@@ -21,10 +21,9 @@ Lemma scale_column (u : string) (d : dimd) du sc :
   (d = DSampled (match d with DSampled dt _ _ => dt | _ => fzero end) (match d with DSampled _ o _ => o | _ => None end) du \/
    d = DRange (match d with DRange t _ => t | _ => [] end) du) ->
   spec_scaling u d = Some sc ->
-  forall (col : list rowent) k0,
+  forall (col : list rowent),
   (forall en, In en col -> finite (e_start en) /\ finite (e_end en)) ->
-  (sc = None -> k0 = fone) ->
-  scalePositions (map e_start col) (map e_end col) (map (fun _ => u) col) (dim_unit_str du) k0 =
+  scalePositions (map e_start col) (map e_end col) (map (fun _ => u) col) (dim_unit_str du) =
   Ok (map (fun en => scaled sc (e_start en)) col, map (fun en => scaled sc (e_end en)) col).
 Proof.
   intros Hd Hsc.
@@ -33,17 +32,17 @@ Proof.
                                         | Some dus => match getSIScaling u dus with Ok k => Some (Some k) | _ => None end end)).
   { destruct Hd as [-> | ->]; reflexivity. }
   rewrite Hs in Hsc.
-  induction col as [|en col IH]; intros k0 Hfin Hk0; [reflexivity|].
+  induction col as [|en col IH]; intros Hfin; [reflexivity|].
   cbn [map scalePositions].
   destruct (Hfin en (or_introl eq_refl)) as [Fs Fe].
   assert (Hfin' : forall en', In en' col -> finite (e_start en') /\ finite (e_end en')) by (intros; apply Hfin; right; assumption).
   destruct (is_none_unit u) eqn:Eu.
-  - injection Hsc as <-. cbn [negb andb bind]. rewrite (Hk0 eq_refl).
-    rewrite (IH fone Hfin' (fun _ => eq_refl)). cbn [bind fst snd scaled]. rewrite !fmul_one by assumption. reflexivity.
+  - injection Hsc as <-. cbn [negb andb bind].
+    rewrite (IH Hfin'). cbn [bind fst snd scaled]. rewrite !fmul_one by assumption. reflexivity.
   - destruct du as [dus|]; [|discriminate]. destruct (getSIScaling u dus) as [k| |] eqn:Ek; try discriminate.
     injection Hsc as <-. destruct (scaling_not_none _ _ _ Ek) as [Nd _]. cbn [dim_unit_str] in IH |- *. rewrite Nd. cbn [negb andb].
     unfold scaling_or_incompatible. rewrite Ek. cbn [bind].
-    rewrite (IH k Hfin' ltac:(discriminate)). reflexivity.
+    rewrite (IH Hfin'). reflexivity.
 Qed.
 
 Lemma indexOf_vec_column d m (f g : rowent -> F64) : forall col,
@@ -63,10 +62,10 @@ Proof.
   intros Hsc Hfin.
   destruct d as [dt off du|ticks du|n|n]; cbn [positionToIndex_vec].
   - unfold zlen. rewrite !map_length, Z.eqb_refl. cbn [negb orb].
-    rewrite (scale_column u (DSampled dt off du) du sc (or_introl eq_refl) Hsc col fone Hfin (fun _ => eq_refl)). cbn [bind fst snd].
+    rewrite (scale_column u (DSampled dt off du) du sc (or_introl eq_refl) Hsc col Hfin). cbn [bind fst snd].
     apply indexOf_vec_column.
   - unfold zlen. rewrite !map_length, Z.eqb_refl. cbn [negb orb].
-    rewrite (scale_column u (DRange ticks du) du sc (or_intror eq_refl) Hsc col fone Hfin (fun _ => eq_refl)). cbn [bind fst snd].
+    rewrite (scale_column u (DRange ticks du) du sc (or_intror eq_refl) Hsc col Hfin). cbn [bind fst snd].
     apply indexOf_vec_column.
   - cbn [spec_scaling] in Hsc. injection Hsc as <-. unfold zlen. rewrite !map_length, Z.eqb_refl. cbn [negb scaled].
     apply indexOf_vec_column.
